@@ -43,6 +43,10 @@ def errKind : FileErr → String
   | .io => "io" | .missing => "missing" | .directory => "directory"
   | .surfeit _ => "surfeit" | .dearth _ => "dearth" | .md5 => "md5"
 
+def codes (cs : Paths.CPath) : String :=
+  if cs.isEmpty then "-" else joinWith "," (cs.map fun c => match c with
+    | .root => "R" | .cur => "C" | .parent => "P" | .normal s => "N" ++ hexOfBytes s)
+
 /-- `verify <p> <pieces hex> <S|M> (<path> <len> <md5|-> <node>)*`
  → `ok <good> <piecesOk> <path:kind;…|->` | `refuse <why>`
  `leaves <path>` → `ok 0|1` -/
@@ -72,6 +76,19 @@ def handle (args : List String) : String :=
           s!"ok {if s.good then 1 else 0} {if s.piecesOk then 1 else 0} {if errs.isEmpty then "-" else joinWith ";" errs}"
     | _, _, _ => "bad-op"
   -- path algebra (`~` = option absent, `-` = empty text)
+  -- components coded `R`, `C`, `P`, `N<hex>` and joined with `,` (`-` for none)
+  | ["comps", p] =>
+    match bytesOfHex p with
+    | some p => "ok " ++ codes (Paths.comps p)
+    | none => "bad-op"
+  | ["lexiclean", p] =>
+    match bytesOfHex p with
+    | some p => "ok " ++ codes (Paths.lexiclean (Paths.comps p))
+    | none => "bad-op"
+  | ["join", a, c] =>
+    match bytesOfHex a, bytesOfHex c with
+    | some a, some c => "ok " ++ codes (Paths.joinC (Paths.comps a) (Paths.comps c))
+    | _, _ => "bad-op"
   | ["pnorm", p] =>
     match bytesOfHex p with
     | some p => "ok " ++ hexOrDash (Paths.render (Paths.comps p))
